@@ -589,6 +589,22 @@ Theorem C02x_empty_sound_text_unguarded :
 Proof. exact XuTextEmpty.text_empty_sound_norm. Qed.
 Print Assumptions C02x_empty_sound_text_unguarded.
 
+
+(* ... and with Diff/XuStrip.v (hidden keys removed, as C02_empty_sound_all_keys) ONLY the set-member guard is left over
+   the extended universe: no key guard, no datetime-kind guard *)
+From DD Require Diff.XuStrip.
+
+Theorem C02x_empty_sound_only_set_member_guard :
+  forall hatom udiff ops excl c ok (t1 t2 : XuValue.value),
+    (forall a b, ok a = true -> ok b = true -> hatom a = hatom b -> XuValue.py_eq a b = true) -> XuEmpty.valid_ops ops ->
+    XuValue.wf t1 = true -> XuValue.wf t2 = true ->
+    XuEmpty.inputs_ok XuEmpty.any_atom ok XuEmpty.any_atom t1 = true ->
+    XuEmpty.inputs_ok XuEmpty.any_atom ok XuEmpty.any_atom t2 = true ->
+    fst (XuModel.run_diff hatom udiff ops (fun _ => false) excl c t1 t2) = [] ->
+    XuValue.py_eqv (XuEmptyNorm.normL (XuStrip.strip c t1)) (XuEmptyNorm.normL (XuStrip.strip c t2)) = true.
+Proof. intros. eapply XuStrip.run_empty_sound_all_keys_norm; eassumption. Qed.
+Print Assumptions C02x_empty_sound_only_set_member_guard.
+
 (* ------------------------------------------------------------------ *)
 (** EXTENSION beyond the property's stated domain: values holding INSTANCES OF CLASSES
     (objects with attributes, Obj/ObjValue.v [ovalue]).  The ordered diff on such values is the
